@@ -320,7 +320,9 @@ def cmd_check(pid, tier, seed):
 
 def cmd_expect_update(pids):
     """dev: record, per harness, the named obligations and cover points a passing run must show."""
-    from registry import INDEX
+    import subprocess
+    subprocess.run([sys.executable, os.path.join(VERIF, "tools", "gen_index.py"), "--all"], check=True, stdout=subprocess.DEVNULL)
+    INDEX = json.load(open(os.path.join(VERIF, "lib", "harness_index.json")))
     b = kanitrack.build()
     if not b["ok"]:
         print("build failed")
@@ -353,6 +355,7 @@ def cmd_expect_update(pids):
                 exp[n] = dict(obligations=ob, covers=cv, seconds=round(r["seconds"], 1), status=r["status"])
                 write_json(p, exp)
     write_json(p, exp)
+    subprocess.run([sys.executable, os.path.join(VERIF, "tools", "gen_index.py")], check=True)
     return 0
 
 
